@@ -172,3 +172,16 @@ End Arr.
    call whose workers iterate the Scheduler object left behind by a finished call: the shared counters keep
    their values, the new workers start from the top of __iter__, nothing has been handed out or written yet *)
 Definition recycle (s : state) : state := mk_state (ndata s) (start s) None (fun _ => PIdle) [] [].
+
+(* ---- failing workers ---- *)
+(* the engine may raise while a worker processes the slice it received (_parallel_query / _parallel_proj: the except
+   handler counts the error, nothing of the slice has been written, the worker function returns).  A turn is (worker, fails):
+   [fails] only matters when the worker is about to write its slice.  The second component collects the slices dropped. *)
+Definition fstep (c : cfg) (sd : state * list (Z * Z)) (e : nat * bool) : state * list (Z * Z) :=
+  let '(s, dropped) := sd in
+  let '(w, fails) := e in
+  match fails, pcs s w with
+  | true, PWork a b => (set_pc s w PDone, dropped ++ [(a, b)])
+  | _, _ => (step c s w, dropped)
+  end.
+Definition frun (c : cfg) (fsched : list (nat * bool)) : state * list (Z * Z) := fold_left (fstep c) fsched (init c, []).
